@@ -913,6 +913,27 @@ func l1Generate(c *lib.Ctx, rng *rand.Rand) []l1Scenario {
 		}
 		scs = append(scs, sc)
 	}
+	// consecutive numbers whose times are not contiguous: a segment that is shorter (dropped frames) or longer than
+	// the grid while the next one starts on the grid again
+	for k := 0; k < 2*mult; k++ {
+		keys := [][]string{{"v500", "a128"}, {"v500", "v800"}}[k%2]
+		sc := l1Scenario{Kind: 4, Tracks: tracksOf(keys...), Tsbd: 60, Gen: "segment-off-grid-duration"}
+		const D = 36000
+		for i := range keys {
+			sc.Ups = append(sc.Ups, l1Up{Init: true, Track: i})
+		}
+		first := int64(10 + rng.Intn(90))
+		for m := int64(0); m < 10; m++ {
+			ns := 50
+			if m >= 3 && rng.Intn(3) == 0 {
+				ns = []int{40, 30, 60}[rng.Intn(3)] // the same cut in every track
+			}
+			for t := range keys {
+				sc.Ups = append(sc.Ups, l1Up{Track: t, Seq: first + m, T: (first + m) * D, Frags: 1, NS: ns, SD: 720, Lay: "trun"})
+			}
+		}
+		scs = append(scs, sc)
+	}
 	// a sender that restarts re-sends its init segments in the middle of the run
 	for k, keys := range [][]string{{"v500", "a128"}, {"v500", "v800", "a128"}} {
 		sc := l1Scenario{Kind: 4, Tracks: tracksOf(keys...), Tsbd: 30, Gen: "resent-init"}
@@ -1233,6 +1254,9 @@ func l1Oracle(c *lib.Ctx, id string, sc l1Scenario, obs []l1Obs) {
 			// the start time of the stored segment is what its file says (a shifted channel rewrites it), the duration
 			// is the uploaded segment's
 			if _, dd := l1Truth(sc, u); true {
+				if prev, ok := truth[sc.Tracks[u.Track].Name][nr-1]; ok && prev[0]+prev[1] != o.StoredT {
+					pre["time_discontinuity"] = true // this segment does not start where the previous number of its track ends
+				}
 				if was, ok := truth[sc.Tracks[u.Track].Name][nr]; ok && was != [2]int64{o.StoredT, dd} {
 					pre["reupload_other_timing"] = true // the file now holds a segment with another time or duration than the first upload of this number
 				}
